@@ -58,11 +58,14 @@ func (o *observer) ExtensionName() string                   { return "c07-observ
 func (o *observer) Validate(graphql.ExecutableSchema) error { return nil }
 func (o *observer) MutateOperationParameters(ctx context.Context, p *graphql.RawParams) *gqlerror.Error {
 	o.mu.Lock()
-	defer o.mu.Unlock()
 	if o.cur != nil {
 		o.cur.called = true
 		o.cur.ptr = p
 		o.cur.s = showParams(p)
+	}
+	o.mu.Unlock()
+	if o.name == "pre" {
+		parkAt("mut", p.Headers) // scheduled interleavings (sched.go)
 	}
 	return nil
 }
@@ -297,6 +300,52 @@ func oracle(q *rq, hdrName, hitKey, hitVal string, hit bool) response {
 	return newServer("none", "map", hdrName, seed).serve(q)
 }
 
+// preRegister registers catalogue texts as persisted queries; returns what a fresh server is seeded with
+func preRegister(srv *server, pre []int) map[string]string {
+	seed := map[string]string{}
+	for _, i := range pre {
+		t := catalogue[i].text
+		srv.serve(&rq{kind: "post", method: "POST", hdrs: http.Header{"Content-Type": {"application/json"}},
+			body: `{"query":` + canon(t) + `,"extensions":{"persistedQuery":{"version":1,"sha256Hash":"` + shaOf(t) + `"}}}`})
+		seed[shaOf(t)] = t
+	}
+	return seed
+}
+
+// runGroup serves one scheduled group on a new server and prints its rows (mode "sched")
+func runGroup(sid int, cfgName string, gr group, pre []int) {
+	cqc, capq, chdr := splitCfg(cfgName)
+	srv := newServer(cqc, capq, chdr, nil)
+	seedAPQ := preRegister(srv, pre)
+	srv.apq.take()
+	srv.qc.take()
+	resps, parked := srv.scheduled(gr.reqs, gr.lifo)
+	srv.apq.take()
+	srv.qc.take()
+	bad := srv.qc.changedDocs()
+	unl := append(srv.qc.unlawful, srv.apq.unlawful...)
+	drift := srv.configDrift()
+	ord := "fifo"
+	if gr.lifo {
+		ord = "lifo"
+	}
+	ps, _ := json.Marshal(pre)
+	fmt.Fprintf(out, "S\t%d\t%s\tsched:%s:%s:%s\n", sid, cfgName, gr.name, ord, ps)
+	for i, q := range gr.reqs {
+		runtime.GC()
+		runtime.GC()
+		orc := newServer("none", "map", chdr, seedAPQ).serve(q)
+		r := &record{sid: sid, idx: i, q: q, resp: resps[i], obs: "-", cfg: cfgName}
+		if parked[i] {
+			r.q.tags = append(r.q.tags, "parked")
+		}
+		if i == len(gr.reqs)-1 {
+			r.docsBad, r.unlawful, r.drift = bad, unl, drift
+		}
+		emit(r, orc, "sched")
+	}
+}
+
 // cfg strings: "<query cache>/<apq cache>[/<header configuration>]"
 func splitCfg(c string) (qc, apq, hdr string) {
 	p := strings.Split(c, "/")
@@ -328,6 +377,12 @@ type wireRq struct {
 type wireHist struct {
 	Cfg  string   `json:"cfg"` // "<query cache>/<apq cache>"
 	Reqs []wireRq `json:"reqs"`
+	// "" = one after the other; "fifo" / "lifo" = a scheduled group (sched.go): every request but the last parks
+	// where its X-C07-Park header says, the last one is served from start to end, then the parked ones are released
+	Sched string `json:"sched,omitempty"`
+	Pre   []int  `json:"pre,omitempty"` // catalogue texts registered as persisted queries before the group
+	// a websocket session (ws.go) instead of HTTP requests
+	Ws *wsSession `json:"ws,omitempty"`
 }
 
 // replayHistory serves the requests of a replay file on one new server, then asks the oracle
@@ -342,6 +397,22 @@ func replayHistory(path string) {
 	}
 	cqc, capq, chdr := splitCfg(h.Cfg)
 	cfgName := cqc + "/" + capq + "/" + chdr
+	if h.Ws != nil {
+		runWsSession(0, cfgName, "replay", h.Ws)
+		return
+	}
+	if h.Sched != "" {
+		gr := group{name: "replay", lifo: h.Sched == "lifo"}
+		for _, w := range h.Reqs {
+			q := &rq{kind: w.Kind, method: w.Method, rawURL: w.RawURL, hdrs: w.Hdrs, body: w.Body, enc: w.Enc, tags: []string{"replay"}}
+			if q.hdrs == nil {
+				q.hdrs = http.Header{}
+			}
+			gr.reqs = append(gr.reqs, q)
+		}
+		runGroup(0, cfgName, gr, h.Pre)
+		return
+	}
 	srv := newServer(cqc, capq, chdr, nil)
 	var recs []*record
 	for i, w := range h.Reqs {
@@ -479,9 +550,9 @@ func main() {
 	for _, c := range catalogue {
 		texts[c.text] = true
 	}
-	nseq, seqLen, nbatch, batchN := 240, 24, 16, 64
+	nseq, seqLen, nbatch, batchN, ngroup, nws := 240, 24, 16, 64, 160, 60
 	if *tier == "thorough" {
-		nseq, seqLen, nbatch, batchN = 2000, 40, 120, 96
+		nseq, seqLen, nbatch, batchN, ngroup, nws = 2000, 40, 120, 96, 3000, 1200
 	}
 	root := rng.New(*seed)
 	var recs []*record
@@ -534,6 +605,40 @@ func main() {
 			}
 		}
 	}
+	base := 0
+	if *race { // under the race detector: fewer of them; ids apart from those of the main run
+		ngroup, nws, base = ngroup/10, nws/10, 500000
+	}
+	{
+		// ---- scheduled groups: the harness decides where one request stands while another is served
+		out.Flush()
+		sid := 200000 + base
+		qcs := []string{"map", "lru1000", "lru2", "lru1", "none"}
+		for i, gr := range directedGroups() {
+			runGroup(sid, qcs[i%len(qcs)]+"/map/none", gr, nil)
+			sid++
+		}
+		for n := 0; n < ngroup; n++ {
+			g := &gen{r: root.Fork(), conc: true, pre: []int{0, 2, 3, 4, 5}}
+			hdrName := "none"
+			if g.pick(3) == 0 {
+				hdrName = hdrCfgNames[g.pick(len(hdrCfgNames))]
+			}
+			runGroup(sid, qcs[g.pick(3)]+"/lru1000/"+hdrName, randomGroup(g), g.pre)
+			sid++
+		}
+		// ---- websocket sessions: several operations and protocol messages on one connection
+		sid = 300000 + base
+		for i, ws := range directedWsSessions() {
+			runWsSession(sid, qcs[i%len(qcs)]+"/map/none", "directed", ws)
+			sid++
+		}
+		for n := 0; n < nws; n++ {
+			g := &gen{r: root.Fork()}
+			runWsSession(sid, qcs[g.pick(len(qcs))]+"/map/none", "random", randomWsSession(g))
+			sid++
+		}
+	}
 	// ---- concurrent batches against one server (everything so far is flushed first: unsynchronised writes to
 	// shared state can kill the process with "fatal error: concurrent map writes", which cannot be recovered)
 	out.Flush()
@@ -542,15 +647,7 @@ func main() {
 		hdrName := hdrCfgNames[b%len(hdrCfgNames)]
 		cfgName := "lru1000/lru1000/" + hdrName
 		srv := newServer("lru1000", "lru1000", hdrName, nil)
-		for _, i := range g.pre { // registrations before the batch
-			t := catalogue[i].text
-			srv.serve(&rq{kind: "post", method: "POST", hdrs: http.Header{"Content-Type": {"application/json"}},
-				body: `{"query":` + canon(t) + `,"extensions":{"persistedQuery":{"version":1,"sha256Hash":"` + shaOf(t) + `"}}}`})
-		}
-		seedAPQ := map[string]string{}
-		for _, i := range g.pre {
-			seedAPQ[shaOf(catalogue[i].text)] = catalogue[i].text
-		}
+		seedAPQ := preRegister(srv, g.pre) // registrations before the batch
 		qs := make([]*rq, batchN)
 		for i := range qs {
 			qs[i] = g.request()
@@ -573,12 +670,12 @@ func main() {
 		bad := srv.qc.changedDocs()
 		unl := append(srv.qc.unlawful, srv.apq.unlawful...)
 		drift := srv.configDrift()
-		fmt.Fprintf(out, "S\t%d\t%s\tconcurrent\n", 100000+b, cfgName)
+		fmt.Fprintf(out, "S\t%d\t%s\tconcurrent\n", 100000+base+b, cfgName)
 		for i, q := range qs {
 			runtime.GC()
 			runtime.GC()
 			orc := newServer("none", "map", hdrName, seedAPQ).serve(q)
-			r := &record{sid: 100000 + b, idx: i, q: q, resp: resps[i], obs: "-", cfg: cfgName}
+			r := &record{sid: 100000 + base + b, idx: i, q: q, resp: resps[i], obs: "-", cfg: cfgName}
 			if i == 0 {
 				r.docsBad, r.unlawful, r.drift = bad, unl, drift
 			}
